@@ -146,6 +146,22 @@ Theorem C12_add_keeps_ok : forall o ps names ps' names',
 Proof. exact add_keeps_ok. Qed.
 Print Assumptions C12_add_keeps_ok.
 
+(* a whole construction history: an object registered under a key that no later registration reuses is the
+   entry of its key at the end (the hypothesis "resolvable" for primitives and for terminals registered
+   under their printed form), and the set stays consistent when no key is an argument name *)
+Theorem C12_build_lookup : forall ops st st' o,
+  pset_build ops st = Some st' -> NoDup (map bop_key ops) -> In o ops ->
+  dget (bop_key o) (ps_mapping (fst st')) = Some (bop_node o).
+Proof. exact build_lookup. Qed.
+Print Assumptions C12_build_lookup.
+
+Theorem C12_build_keeps_ok : forall ops st st',
+  pset_build ops st = Some st' ->
+  (forall k, In k (map bop_key ops) -> ~ In k (ps_arguments (fst st))) ->
+  pset_ok (fst st) -> arg_entries (fst st) -> pset_ok (fst st') /\ arg_entries (fst st').
+Proof. exact build_keeps_ok. Qed.
+Print Assumptions C12_build_keeps_ok.
+
 (* integer (also negative) and boolean constants always meet the printing hypothesis *)
 Theorem C12_int_bool_constants_ok : forall ps r,
   (forall z, node_ok ps (NConst (CInt z) r)) /\ (forall b, node_ok ps (NConst (CBool b) r)).
